@@ -168,15 +168,17 @@ def _work(job):
 
 
 def _twin(E, fn):
-    """vacuity guard: with the first reachable assertion forced to fail, the harness
-    must report a violation on its first path"""
+    """vacuity guard: with every assertion forced to fail, the harness must report a
+    violation within its first paths (i.e. some assertion is reachable)"""
     real = E.require
 
     def require(cond, label, detail=None):
         return real(False, "twin:" + label, None)
 
     E.require = require
-    E.explore(fn, max_paths=1)
+    E.max_viol = 1
+    E.stop_on_violation = True
+    E.explore(fn, max_paths=300, deadline=time.time() + 30)
 
 
 def _validate_batch(items, timeout):
